@@ -491,3 +491,59 @@ Proof.
     destruct (negb (macro_of_interest (render_name n) cfg)); try discriminate.
     injection H as <-. reflexivity.
 Qed.
+
+(* ------------------------------------------------------------------------------------------ *)
+(* the rewritten statements read back; nothing else in the item list differs                    *)
+(* ------------------------------------------------------------------------------------------ *)
+
+(* the statement with target / key-values whose message begins with the token *)
+Theorem stmtA_token_roundtrip cfg code pre n a id us :
+  id <= u32_max -> a_msg a = (map MChar (default_token id) ++ us)%list ->
+  forall e, In e (step_entries (stmt_stepA cfg code pre n a)) -> e_kind e = KString -> e_ref e = Some id.
+Proof.
+  intros Hid Hmsg e Hin Hk. unfold stmt_stepA in Hin.
+  destruct (directive_check the_params (p_ignore the_params) code (blen pre) (p_comment_re the_params)) as [[|]|];
+    cbn [step_entries In] in Hin; try contradiction.
+  destruct (negb (macro_of_interest (render_name n) cfg)); cbn [step_entries In] in Hin; try contradiction.
+  destruct (if cfg_structured cfg then _ else _) as [nk|]; cbn [step_entries In] in Hin; try contradiction.
+  destruct (cfg_structured cfg && negb nk).
+  - destruct (ref_more _ _) as [[prev vt]|].
+    + cbn [step_entries In] in Hin. destruct Hin as [<-|[]]. cbn [e_kind] in Hk. discriminate.
+    + destruct (a_targ a); cbn [step_entries In] in Hin; destruct Hin as [<-|[]]; cbn [e_kind] in Hk; discriminate.
+  - cbn [step_entries In] in Hin. destruct Hin as [<-|[]]. cbn [e_ref]. rewrite Hmsg, render_msg_app, render_msg_chars.
+    apply extract_reference_token. exact Hid.
+Qed.
+
+(* Whatever statement `add_ref` makes -- with the token in its message or with the key-value -- is read back with
+   exactly that ID when it is reported in the same way, at any place of any file under any configuration *)
+Theorem rewritten_statement_reads_back it e0 id :
+  id <= u32_max ->
+  ((exists n l us, it = IStmt n l us) \/ (exists n a, it = IStmtA n a)) ->
+  forall cfg code pre e, In e (step_entries (item_step cfg code pre (add_ref it e0 id))) ->
+  (e_kind e0 = KString -> e_kind e = KString -> e_ref e = Some id) /\
+  (e_kind e0 <> KString -> e_kind e <> KString -> e_kind e = KStructuredPreExisting /\ e_ref e = Some id).
+Proof.
+  intros Hid Hit cfg code pre e Hin. unfold add_ref in Hin. split; intros H0 Hk.
+  - rewrite H0 in Hin. destruct Hit as [(n & l & us & ->)|(n & a & ->)]; cbn [add_token item_step] in Hin.
+    + exact (stmt_token_roundtrip cfg code pre n l us id Hid e Hin Hk).
+    + eapply (stmtA_token_roundtrip cfg code pre n _ id (a_msg a) Hid); [|exact Hin|exact Hk]. reflexivity.
+  - assert (Hin' : In e (step_entries (item_step cfg code pre (add_kv it id)))).
+    { destruct (e_kind e0); try exact Hin. congruence. }
+    clear Hin. destruct Hit as [(n & l & us & ->)|(n & a & ->)]; cbn [add_kv] in Hin'.
+    + cbn [item_step] in Hin'. eapply stmtA_ref_roundtrip; eauto. reflexivity.
+    + destruct (a_targ a) as [t|]; destruct (a_kvs a) as [[[[k1 more] lsemi] lafter]|]; cbn [item_step] in Hin';
+        (eapply stmtA_ref_roundtrip; [exact Hid| |exact Hin'|exact Hk]; reflexivity).
+Qed.
+
+(* the item list after the run differs from the one before only at statements, and there only by `add_ref` *)
+Theorem retoken_shape cfg code : forall its pre ctr,
+  Forall2 (fun x y => fst y = fst x /\ (snd y = snd x \/ exists e id, snd y = add_ref (snd x) e id))
+          its (retoken cfg code its pre ctr).
+Proof.
+  induction its as [|[l it] r IH]; intros pre ctr; cbn [retoken]; [constructor|]. cbv zeta.
+  destruct (item_step cfg code (pre ++ render_lay l) it) as [|e|].
+  1,3: constructor; [cbn [fst snd]; split; [reflexivity|left; reflexivity]|apply IH].
+  destruct (missing_insert e); constructor; try apply IH; cbn [fst snd]; split; try reflexivity.
+  - right. eauto.
+  - left. reflexivity.
+Qed.
